@@ -176,7 +176,9 @@ pub fn enabled<P: Proto>(w: &ClientWorld<P>, cfg: &Cfg) -> Vec<(CAct, u8)> {
             }
         }
         "C18" => {
-            let q = (cfg.keep_alive_s.max(1) * 1000 / 5) as u32;
+            // (MQTT 5: a server keep-alive in the CONNACK replaces the configured value)
+            let ka = cfg.server_ka.map(|k| k as u64).unwrap_or(cfg.keep_alive_s);
+            let q = (ka.max(1) * 1000 / 5) as u32;
             if cfg.variant == 0 {
                 if connected && healthy {
                     v.push((CAct::T(q), 0));
@@ -204,7 +206,7 @@ pub fn enabled<P: Proto>(w: &ClientWorld<P>, cfg: &Cfg) -> Vec<(CAct, u8)> {
                 if awaiting {
                     v.push((CAct::T(1000), 0));
                     v.push((CAct::T(500), 0));
-                    v.push((CAct::B(Pk::ConnAck { sp: false, code: 0, recv_max: None }), 0));
+                    v.push((CAct::B(Pk::ConnAck { sp: false, code: 0, recv_max: None, server_ka: None }), 0));
                 }
                 if connected && healthy && !w.mon.connect_seen_unanswered && w.mon.connections() > 0 {
                     // established after all: keep-alive applies from here on
@@ -381,6 +383,15 @@ fn plans(prop: &str, tier: Tier) -> Vec<Plan> {
                     let mut c = Cfg::base("C18", v5, 10);
                     c.keep_alive_s = ka;
                     v.push(Plan { cfg: c.clone(), depth_by_devs: if q { vec![13, 12] } else { vec![17, 16, 14] } });
+                }
+                if v5 {
+                    // the broker overrides the keep-alive: shorter, longer, switched off
+                    for ska in [2u16, 10, 0] {
+                        let mut c = Cfg::base("C18", v5, 10);
+                        c.keep_alive_s = 5;
+                        c.server_ka = Some(ska);
+                        v.push(Plan { cfg: c, depth_by_devs: if q { vec![13, 12] } else { vec![17, 16] } });
+                    }
                 }
                 if !v5 {
                     // (the MQTT 5 options do not accept a zero keep-alive)
